@@ -94,7 +94,11 @@ def check_outermost(x, problems, what, st=None):
         if fo is not None:
             problems.append("%s: extract_outermost returned %r but extract has no frames" % (what, fo))
         elif st.error is not None:
-            if type(exc) is not type(st.error) or str(exc) != str(st.error):
+            def shape(e):
+                if hasattr(e, "exceptions"):
+                    return ("group", tuple(shape(x) for x in e.exceptions))
+                return (type(e).__name__, str(e))
+            if shape(exc) != shape(st.error):
                 problems.append("%s: extract_outermost raised %r, recorded error was %r" % (what, exc, st.error))
     return st
 
@@ -218,7 +222,7 @@ def observe_running(case):
 
 # ------------------------------------------------------------------ misc scenarios
 def misc_scenarios():
-    return ["thread_blocked", "thread_dead", "thread_unstarted", "custom_leaf", "custom_raises", "custom_frames_then_raises",
+    return ["thread_blocked", "thread_dead", "thread_unstarted", "custom_leaf", "custom_raises", "custom_two_raises", "custom_iter_two_errors", "custom_frames_then_raises",
             "custom_frames", "custom_empty", "greenlet_suspended", "greenlet_dead", "gen_unstarted", "none", "int"]
 
 
@@ -350,6 +354,15 @@ def observe_misc(name):
         st = both(T["Raises"](), name)
         if st.error is None:
             problems.append("no recorded error")
+    elif name == "custom_two_raises":
+        # a frameless item that fans out into two failing members: the recorded error is a group of both
+        st = both(T["Frames"]([T["Raises"](), T["Raises"]()]), name)
+        if st.frames or not hasattr(st.error, "exceptions") or len(st.error.exceptions) != 2:
+            problems.append("expected no frames and a group of two errors, got %r" % (st,))
+    elif name == "custom_iter_two_errors":
+        st = both(T["FramesThenRaises"]([T["Raises"]()]), name)
+        if st.frames or not hasattr(st.error, "exceptions") or len(st.error.exceptions) != 2:
+            problems.append("expected no frames and a group of two errors, got %r" % (st,))
     elif name == "custom_frames_then_raises":
         st = both(T["FramesThenRaises"]([a.gi_frame, b.gi_frame]), name)
         if len(st.frames) != 2 or st.error is None:
